@@ -1094,6 +1094,18 @@ pub enum Op {
     InlineImage { image: Arc<ImageXObject> },
 }
 
+/// The property list of `BDC` / `DP` is either a dictionary or the name of an entry of the /Properties resources.
+fn clone_named_properties(properties: &Option<Primitive>, cloner: &mut impl Cloner, old_resources: &Resources, resources: &mut Resources) -> Result<()> {
+    if let Some(Primitive::Name(ref name)) = *properties {
+        if !resources.properties.contains_key(name.as_str()) {
+            if let Some(p) = old_resources.properties.get(name.as_str()) {
+                resources.properties.insert(name.as_str().into(), p.deep_clone(cloner)?);
+            }
+        }
+    }
+    Ok(())
+}
+
 pub fn deep_clone_op(op: &Op, cloner: &mut impl Cloner, old_resources: &Resources, resources: &mut Resources) -> Result<Op> {
     match *op {
         Op::GraphicsState { ref name } => {
@@ -1105,9 +1117,11 @@ pub fn deep_clone_op(op: &Op, cloner: &mut impl Cloner, old_resources: &Resource
             Ok(Op::GraphicsState { name: name.clone() })
         }
         Op::MarkedContentPoint { ref tag, ref properties } => {
+            clone_named_properties(properties, cloner, old_resources, resources)?;
             Ok(Op::MarkedContentPoint { tag: tag.clone(), properties: properties.deep_clone(cloner)? })
         }
         Op::BeginMarkedContent { ref tag, ref properties } => {
+            clone_named_properties(properties, cloner, old_resources, resources)?;
             Ok(Op::BeginMarkedContent { tag: tag.clone(), properties: properties.deep_clone(cloner)? })
         }
         Op::TextFont { ref name, size } => {
